@@ -294,3 +294,99 @@ func rtFacts(repo string) string {
 	return fmt.Sprintf("{ ownFilter := %s, needPullGuard := %s, notifySyncTakesSema := %s, deliverTryAcquire := %s, deliverRechecks := %s, deliverAsync := %s }",
 		b(ownFilter), b(needPull), b(notifySema), b(tryAcq), b(rechecks), b(async))
 }
+
+// ---- success flag of TransactionDatatype (client/pkg/internal/datatypes/transaction.go) ----
+
+func assignsSuccess(s ast.Stmt) (isAssign bool, value string) {
+	as, ok := s.(*ast.AssignStmt)
+	if !ok || len(as.Lhs) != 1 || len(as.Rhs) != 1 {
+		return false, ""
+	}
+	if src(as.Lhs[0]) != "its.success" {
+		return false, ""
+	}
+	return true, src(as.Rhs[0])
+}
+
+// txFacts writes Orda/Gen/Facts2.lean
+func txFacts(repo string) string {
+	const rel = "client/pkg/internal/datatypes/transaction.go"
+	f := parse(repo, rel)
+	b := func(v bool) string {
+		if v {
+			return "true"
+		}
+		return "false"
+	}
+	resetUnder, resetBefore, failFalse, endReads := false, false, false, false
+	known := 0 // assignments to its.success at the known sites
+	total := 0
+	ast.Inspect(f, func(n ast.Node) bool {
+		if s, ok := n.(ast.Stmt); ok {
+			if is, _ := assignsSuccess(s); is {
+				total++
+			}
+		}
+		return true
+	})
+	// unlock(): inside `if its.isLocked { … }`: `its.success = true` before `its.mutex.Unlock()`
+	if fd := method(f, "TransactionDatatype", "unlock"); fd != nil && fd.Body != nil {
+		ast.Inspect(fd.Body, func(n ast.Node) bool {
+			blk, ok := n.(*ast.BlockStmt)
+			if !ok {
+				return true
+			}
+			seenReset := false
+			for _, st := range blk.List {
+				if is, v := assignsSuccess(st); is {
+					known++
+					if v == "true" {
+						seenReset = true
+					}
+				}
+				if es, ok := st.(*ast.ExprStmt); ok && src(es.X) == "its.mutex.Unlock()" && seenReset {
+					resetUnder = true
+				}
+			}
+			return true
+		})
+	} else {
+		problems = append(problems, rel+": unlock not found")
+	}
+	// setTransactionContextAndLock(): any assignment to its.success before its.mutex.Lock()
+	if fd := method(f, "TransactionDatatype", "setTransactionContextAndLock"); fd != nil && fd.Body != nil {
+		locked := false
+		for _, st := range fd.Body.List {
+			if es, ok := st.(*ast.ExprStmt); ok && src(es.X) == "its.mutex.Lock()" {
+				locked = true
+			}
+			if is, _ := assignsSuccess(st); is {
+				known++
+				if !locked {
+					resetBefore = true
+				}
+			}
+		}
+	} else {
+		problems = append(problems, rel+": setTransactionContextAndLock not found")
+	}
+	if fd := method(f, "TransactionDatatype", "SetTransactionFail"); fd != nil && fd.Body != nil && len(fd.Body.List) == 1 {
+		if is, v := assignsSuccess(fd.Body.List[0]); is && v == "false" {
+			failFalse = true
+			known++
+		}
+	}
+	if fd := method(f, "TransactionDatatype", "EndTransaction"); fd != nil && fd.Body != nil {
+		ast.Inspect(fd.Body, func(n ast.Node) bool {
+			if is, ok := n.(*ast.IfStmt); ok && src(is.Cond) == "its.success" && is.Else != nil && containsCall(is.Else, "its.Rollback") {
+				endReads = true
+			}
+			return true
+		})
+	}
+	if total != known {
+		problems = append(problems, fmt.Sprintf("%s: %d assignments to its.success, %d at the sites the model knows", rel, total, known))
+	}
+	return fmt.Sprintf("{ resetUnderLock := %s, resetBeforeLock := %s, failWritesFalse := %s, endReadsFlag := %s }",
+		b(resetUnder), b(resetBefore), b(failFalse), b(endReads))
+}
